@@ -83,7 +83,7 @@ def _horizon(sut):
     return sut.k.now + sut.srv.ping_interval + sut.srv.ping_timeout + 1
 
 
-def _request(fl, ci, mi, ei, ti, ski, ui, ji, bi, pending):
+def _request(fl, ci, mi, ei, ti, ski, ui, ji, bi, pending, origin=0):
     method, eio, tr, sk, up, j, cfg = (c12.METHODS[mi], c12.EIOS[ei], c12.TRANSPORTS[ti], c12.SIDKINDS[ski], c12.UPHDRS[ui],
                                        c12.JS[ji], c12.CFGS[ci])
     st = c12._build(fl, cfg, sk)
@@ -91,7 +91,8 @@ def _request(fl, ci, mi, ei, ti, ski, ui, ji, bi, pending):
         return ''
     sut = st['sut']
     state = dict(flavour=sut.flavour, method=method, sidkind=sk, pending=bool(pending),
-                 body='non-client-type' if (method == 'POST' and BODIES[bi] in (b'9', b'2', b'0', b'6')) else 'other')
+                 body='non-client-type' if (method == 'POST' and BODIES[bi] in (b'9', b'2', b'0', b'6')) else 'other',
+                 bare_upgrade=bool(up is not None and 'Connection' not in up), transport=tr or 'absent')
     try:
         poll = None
         if pending and sk == 'live-polling':
@@ -103,7 +104,14 @@ def _request(fl, ci, mi, ei, ti, ski, ui, ji, bi, pending):
         ws = WsPeer() if (is_ws_req and method == 'GET') else None
         body = BODIES[bi] if method == 'POST' else b''
         q = c12._query(eio, tr, st['sid'], j)
-        r = sut.request(method, q, dict(up) if up else None, body=body, ws=ws)
+        hdrs = dict(up) if up else {}
+        if origin:
+            # an accepted cross-origin style request: Origin equals the request's own scheme://host (origin == 1)
+            # or a foreign one (origin == 2, refused with 400 before anything else)
+            hdrs['Host'] = 'h.example'
+            hdrs['Origin'] = 'http://h.example' if origin == 1 else 'http://evil.example'
+            hdrs['Access-Control-Request-Headers'] = 'x-custom'
+        r = sut.request(method, q, hdrs or None, body=body, ws=ws)
         desc = '%s ?%s hdr=%r body=%r' % (method, q, up, body[:24])
         sut.run(until=_horizon(sut))
         if ws is not None:
@@ -147,13 +155,13 @@ def _request(fl, ci, mi, ei, ti, ski, ui, ji, bi, pending):
 
 @cond(quick=dict(timeout=170, parts=dict(FL=[0, 1], M=[0, 1, 2, 3])),
       thorough=dict(timeout=900, parts=dict(FL=[0, 1], M=[0, 1, 2, 3, 4, 5])))
-def requests_by_method_session_transport(fl: int, mi: int, ti: int, ski: int, ui: int, pending: bool) -> str:
+def requests_by_method_session_transport(fl: int, mi: int, ti: int, ski: int, ui: int, pending: bool, origin: int) -> str:
     """
-    pre: fl == P.FL and mi == P.M and 0 <= ti < len(c12.TRANSPORTS) and 0 <= ski < len(c12.SIDKINDS) and 0 <= ui < 3
-    pre: (not pending) or ski == 1
+    pre: fl == P.FL and mi == P.M and 0 <= ti < len(c12.TRANSPORTS) and 0 <= ski < len(c12.SIDKINDS) and 0 <= ui <= 3
+    pre: ((not pending) or ski == 1) and 0 <= origin <= 2 and (origin == 0 or (ui == 0 and not pending))
     post: _ == ''
     """
-    return verdict(untraced(_request, fl, 0, mi, 2, ti, ski, ui, 0, 0, pending))
+    return verdict(untraced(_request, fl, 0, mi, 2, ti, ski, ui, 0, 0, pending, origin))
 
 
 @cond(quick=dict(timeout=170, parts=dict(FL=[0, 1])), thorough=dict(timeout=600, parts=dict(FL=[0, 1])))
